@@ -247,7 +247,7 @@ class Signal(np.lib.mixins.NDArrayOperatorsMixin):
                 "Quantity with units of Hz or equivalent."
             )
         else:
-            self._sample_rate = sample_rate
+            self._sample_rate = sample_rate.astype(np.float64)
 
     @property
     def dt(self):
@@ -520,7 +520,7 @@ class RadioSignal(Signal):
                 "Quantity with units of Hz or equivalent."
             )
         else:
-            self._center_freq = center_freq
+            self._center_freq = center_freq.astype(np.float64)
 
     @property
     def bandwidth(self):
@@ -543,7 +543,7 @@ class RadioSignal(Signal):
                 "Quantity with units of Hz or equivalent."
             )
         else:
-            self._chan_bw = chan_bw
+            self._chan_bw = chan_bw.astype(np.float64)
 
     @property
     def max_freq(self):
